@@ -66,7 +66,32 @@ def gen_value(rnd, ty, spec=None, depth=0):
     return gen_value(rnd, rnd.choice(['number', 'number', 'string', 'boolean', 'array', 'object', 'null', 'datetime']), None, depth)
 
 
+def table(rnd):
+    return [{'a': rnd.choice([1, 2, 2, 300, 300]), 'b': rnd.choice([1, 2, 5, 2.5, None]), 'k': rnd.choice(['x', 'y'])} for _ in range(rnd.randint(0, 6))]
+
+
+SPECIAL = {
+    'dataAggregate': lambda rnd: [table(rnd), {'categories': rnd.choice([['a'], ['a', 'k'], ['k']]),
+                                               'measures': [{'field': 'b', 'function': rnd.choice(['count', 'sum', 'min', 'max', 'average'])}]}],
+    'dataSort': lambda rnd: [table(rnd), [['a', rnd.random() < 0.5], ['b']]],
+    'dataTop': lambda rnd: [table(rnd), rnd.choice([1, 2, 3]), rnd.choice([['a'], ['k'], ['a', 'k']])],
+    'dataFilter': lambda rnd: [table(rnd), rnd.choice(['a > 1', 'a == 300', 'b', 'a == vv']), {'vv': 2}],
+    'dataJoin': lambda rnd: [table(rnd), table(rnd), rnd.choice(['a', 'k', 'a + 0'])],
+    'dataCalculatedField': lambda rnd: [table(rnd), 'c', rnd.choice(['a * 2', 'a == 2', "k + a"])],
+    'dataValidate': lambda rnd: [table(rnd)],
+    'systemIs': lambda rnd: rnd.choice([[1000, 1000], [65536, 65536], [300, 300], [2, 2], [1000, 1001], ['a', 'a'], [None, None]]),
+    'systemCompare': lambda rnd: rnd.choice([[1000, 1000], [1000, 999], [[1000, 2], [1000, 2]], [{'a': 300}, {'a': 300}]]),
+    'arrayIndexOf': lambda rnd: [[1000, 300, 1000, 7], rnd.choice([1000, 300, 7, 8]), rnd.choice([0, 1, 2])],
+    'arrayLastIndexOf': lambda rnd: [[1000, 300, 1000, 7], rnd.choice([1000, 300, 7, 8])],
+    'objectGet': lambda rnd: [{'a': 1000, 'b': 2}, rnd.choice(['a', 'b', 'c']), 1000],
+    'mathMax': lambda rnd: [rnd.choice([1000, 300, 2]) for _ in range(rnd.randint(1, 4))],
+    'mathMin': lambda rnd: [rnd.choice([1000, 300, 2]) for _ in range(rnd.randint(1, 4))],
+}
+
+
 def gen_args(rnd, fname):
+    if fname in SPECIAL and rnd.random() < 0.6:
+        return SPECIAL[fname](rnd)
     model = args_model(fname)
     args = []
     if model is None:
@@ -104,6 +129,31 @@ def to_float(v):
     return v
 
 
+def fresh_ints(v):
+    """distinct int objects for equal numbers (CPython shares small ints and constants)"""
+    if isinstance(v, bool):
+        return v
+    if isinstance(v, int):
+        return int(str(v))
+    if isinstance(v, list):
+        return [fresh_ints(x) for x in v]
+    if isinstance(v, dict):
+        return {k: fresh_ints(x) for k, x in v.items()}
+    return v
+
+
+def to_mixed(v, rnd):
+    if isinstance(v, bool):
+        return v
+    if isinstance(v, int):
+        return float(v) if rnd.random() < 0.5 else int(str(v))
+    if isinstance(v, list):
+        return [to_mixed(x, rnd) for x in v]
+    if isinstance(v, dict):
+        return {k: to_mixed(x, rnd) for k, x in v.items()}
+    return v
+
+
 def call_once(fname, args):
     from bare_script import execute_script, BareScriptRuntimeError
     from bare_script.library import SCRIPT_FUNCTIONS
@@ -125,10 +175,23 @@ def call_once(fname, args):
 def twin_case(seed, fname):
     rnd = random.Random(seed)
     args = gen_args(rnd, fname)
-    ri = call_once(fname, copy.deepcopy(args))
+    nums = [a for a in args if isinstance(a, int) and not isinstance(a, bool)]
+    if nums and rnd.random() < 0.3:
+        # equal numbers in several positions (identity vs equality, duplicate keys / categories)
+        big = rnd.choice([300, 1000, 65536, 2024, nums[0]])
+        args = [big if (isinstance(a, int) and not isinstance(a, bool) and rnd.random() < 0.7) else a for a in args]
+    if rnd.random() < 0.3:
+        for a in args:
+            if isinstance(a, list) and a and isinstance(a[0], dict):
+                for row in a:                      # rows of a table share category values
+                    if 'a' in row and isinstance(row['a'], int):
+                        row['a'] = rnd.choice([2, 300])
+    ri = call_once(fname, fresh_ints(copy.deepcopy(args)))
     rf = call_once(fname, to_float(copy.deepcopy(args)))
+    rm = call_once(fname, to_mixed(copy.deepcopy(args), rnd))
     return {'fn': fname, 'statusI': ri['status'], 'statusF': rf['status'], 'resI': ri['res'], 'resF': rf['res'],
-            'argsBeforeI': ri['before'], 'argsBeforeF': rf['before'], 'argsAfterI': ri['after'], 'argsAfterF': rf['after']}
+            'argsBeforeI': ri['before'], 'argsBeforeF': rf['before'], 'argsAfterI': ri['after'], 'argsAfterF': rf['after'],
+            'statusM': rm['status'], 'resM': rm['res'], 'argsAfterM': rm['after']}
 
 
 def canaries(case):
